@@ -95,6 +95,36 @@ fn main() {
         "C16" => props::c16::run(&ctx),
         "C18" => props::c18::run(&ctx),
         "C20" => props::c20::run_check(&ctx),
+        // the events world on its own (debugging aid; not a registered check)
+        "EVW" if ctx.replay.is_some() => {
+            let doc: serde_json::Value = serde_json::from_str(&std::fs::read_to_string(ctx.replay.as_ref().unwrap()).expect("replay file")).expect("json");
+            match props::evw::replay(&doc["replay"]) {
+                Ok(o) => {
+                    println!("{}", o.class);
+                    for (sig, what) in o.violations {
+                        println!("  {} {}", sig, what);
+                    }
+                    0
+                }
+                Err(e) => {
+                    eprintln!("MACHINERY: {}", e);
+                    2
+                }
+            }
+        }
+        "EVW" => match props::evw::explore(ctx.tier, "EVW", |_| true) {
+            Ok((report, st)) => {
+                println!("scenarios {} events delivered {} messages {} multi-chunk {} classes {}", st.scenarios, st.events_delivered, st.messages, st.multi_chunk, st.classes);
+                for v in report.violations.values() {
+                    println!("  {} x{}: {}", v.signature, v.count, v.what.chars().take(700).collect::<String>());
+                }
+                0
+            }
+            Err(e) => {
+                eprintln!("MACHINERY: {}", e);
+                2
+            }
+        },
         _ => {
             eprintln!("MACHINERY: unknown property {}", prop);
             2
